@@ -70,6 +70,29 @@ func (cr *clRun) electedAtColdStart(addr string) {
 	}
 	cr.res.stat("cold_start_elections", 1)
 	cr.coldStarts++
+	if cr.abortedWO[addr] {
+		cr.halfRebuiltElections = append(cr.halfRebuiltElections, cr.coldStarts)
+		cr.res.stat("elected_after_interrupted_rebuild", 1)
+	}
+	// A volume revert does not advance the revision counter, so a replica that was away
+	// for it can tie at the election and win: the volume is then back at the state before
+	// the revert (like D19 for snapshots; no listed property promises that a revert survives
+	// such an election). Sectors not overwritten since may then hold either value.
+	for _, rv := range cr.reverts {
+		if rv.lost || rv.holders[addr] {
+			continue
+		}
+		rv.lost = true
+		cr.res.stat("revert_lost_at_election_of_non_holder", 1)
+		for i := range cr.m.val {
+			if i < len(rv.post) && i < len(rv.pre) && cr.m.val[i] == rv.post[i] && rv.pre[i] != rv.post[i] {
+				cr.m.cands[i] = append(cr.m.cands[i], rv.pre[i])
+				if rv.preWild[i] {
+					cr.m.wild[i] = true
+				}
+			}
+		}
+	}
 	for _, s := range cr.snaps {
 		if s.deleted || s.lost || s.holders[addr] {
 			continue
@@ -325,7 +348,15 @@ func (cr *clRun) judgeAdmin(a *adminOp, op Op, pre map[string]string, idleBefore
 		// the volume now shows the snapshot image
 		for _, s := range cr.snaps {
 			if s.name == a.arg {
+				rv := &revertRec{holders: map[string]bool{}, pre: append([]uint64(nil), cr.m.val...), preWild: append([]bool(nil), cr.m.wild...)}
+				for _, r := range cr.c.ctrl.ListReplicas() {
+					if r.Mode == types.RW {
+						rv.holders[r.Address] = true
+					}
+				}
 				cr.m.revertTo(s)
+				rv.post = append([]uint64(nil), cr.m.val...)
+				cr.reverts = append(cr.reverts, rv)
 				cr.reverted = true
 				cr.mutations++
 				cr.res.stat("volume_revert", 1)
@@ -657,6 +688,9 @@ func (cr *clRun) deepChecks(when string, promoted string) {
 			} else if w := cr.woMajorityLoss(bad); w != nil {
 				clause += "/write-majority-included-rebuilding-replica"
 				why += cr.d20Note(w)
+			} else if w := cr.electedHalfRebuilt(bad); w != nil {
+				clause += "/elected-after-interrupted-rebuild"
+				why += cr.d25Note(w)
 			}
 			cr.viol(prop("C02"), clause, "%s: replica %s: %s", when, rn.name, why)
 			return
